@@ -6,7 +6,8 @@ import MgpuProofs.C11CpMain
 
 `reachCp n cin cdrv cdma ccache ops` is the state of the tick-exact model of `cp.CommandProcessor`
 (`MgpuModel/C11Cp.lean`: `cpMiddleware.processFlushReq / processMemCopyReq / processMemCopyRsp`,
-`ctrlMiddleware.processCacheFlushRsp`, two passes per `Tick`) and of its environment after an
+`ctrlMiddleware.processCacheFlushRsp`, two passes per `Tick`; the repaired code, which consumes a
+message only when the `Send` it causes succeeds) and of its environment after an
 ARBITRARY list of environment moves — a flush / H2D / D2H request arriving at the driver port (refused
 when the port is full), a tick, the DMA side / the caches / the driver taking `k` messages from the
 outgoing buffers (or not: back-pressure), an acknowledgement of the `j`-th outstanding cache flush (any
@@ -117,46 +118,69 @@ theorem cp_copies_answered_once (n cin cdrv cdma ccache : Nat) (ops : List CpOp)
 
 example : (reachCp 3 8 8 8 8 demoCpOps).drained = [⟨0, .flush⟩, ⟨2, .d2h⟩, ⟨1, .h2d⟩] := by decide +kernel
 
-/-- **(d) Nothing is lost when nothing was dropped.** In a quiet state (all buffers empty, nothing
-    at the DMA side or the caches) without fault, if no `Send` failed, the answers the driver has taken
-    are a permutation of the requests the driver port accepted: every request — flush, H2D, D2H —
-    was answered exactly once. (A request refused by a full driver port stays with the driver:
-    `CpEnv.step e (.req k)` leaves the state unchanged and answers `full`.) -/
-theorem cp_quiet_all_answered (n cin cdrv cdma ccache : Nat) (ops : List CpOp) :
-    let e := reachCp n cin cdrv cdma ccache ops
-    e.quiet → e.s.fault = none → (∀ ev ∈ e.s.log, ev.dropped = false) → e.drained.Perm e.sent := by
-  intro e hq hf hnd
-  exact (reach_all n cin cdrv cdma ccache ops).1.quiet_perm hq hf hnd
-
-example : (reachCp 3 8 8 8 8 demoCpOps).quiet ∧ (reachCp 3 8 8 8 8 demoCpOps).s.fault = none ∧
-    ∀ ev ∈ (reachCp 3 8 8 8 8 demoCpOps).s.log, ev.dropped = false := by
-  unfold CpEnv.quiet; decide +kernel
-
-/-- (d) at full strength: no `Send` of the CP ever fails silently. FALSE for the code as it is. -/
+/-- **(d) at full strength: no `Send` of the command processor ever fails silently** — for every
+    configuration (any buffer capacities, also 0 or 1), every event order and every amount of
+    back-pressure. The repaired `processMemCopyReq` / `processMemCopyRsp` / `processFlushReq` /
+    `processCacheFlushRsp` take a message from a port (driver request, DMA answer, last cache
+    acknowledgement) only when the `Send` it causes succeeds; otherwise the stage changes nothing,
+    reports no progress and is retried by a later tick. With `cp_quiet_all_answered`: whenever the
+    system is quiet, every request the driver port accepted has been answered exactly once. -/
 def cp_nothing_dropped_full : Prop :=
   ∀ (n cin cdrv cdma ccache : Nat) (ops : List CpOp), ∀ ev ∈ (reachCp n cin cdrv cdma ccache ops).s.log, ev.dropped = false
 
-/-- **Refuted:** `processMemCopyReq` ignores the error of `ToDMA.Send`: with a one-entry ToDMA
-    buffer that the DMA side does not empty, the second copy request is taken from the driver port and
-    its clone is dropped (the same happens at 4096 entries with 4097 requests — reproduced on the real
-    component, oracle `C11.cp.dropped-under-backpressure`). -/
-theorem cp_nothing_dropped_full_refuted : ¬ cp_nothing_dropped_full := by
+theorem cp_nothing_dropped : cp_nothing_dropped_full := by
+  intro n cin cdrv cdma ccache ops
+  exact run_nodrop ops _ (by intro ev hev; cases hev)
+
+/-- one-entry ToDMA buffer that the DMA side does not empty: the second copy request now WAITS in the
+    driver port (ticks report no progress) and is forwarded as soon as the DMA side takes the first -/
+example :
+    (reachCp 0 4 4 1 4 [.req .h2d, .req .h2d, .tick, .tick]).s.log = [.fwd 0 0 .h2d true] ∧
+    (reachCp 0 4 4 1 4 [.req .h2d, .req .h2d, .tick, .tick]).s.drvIn = [⟨1, .h2d⟩] ∧
+    ((reachCp 0 4 4 1 4 [.req .h2d, .req .h2d, .tick]).step .tick).2 = "t0" ∧
+    (reachCp 0 4 4 1 4 [.req .h2d, .req .h2d, .tick, .tick, .takeDma 1, .tick]).s.log =
+      [.fwd 0 0 .h2d true, .fwd 1 1 .h2d true] := by decide +kernel
+
+/-- a full ToDriver buffer: the DMA answer, the last cache acknowledgement and a flush without caches
+    all wait (nothing consumed, no event), and are served once the driver takes an answer -/
+example :
+    (reachCp 1 4 1 4 4 [.req .h2d, .tick, .takeDma 1, .rsp 0, .tick, .req .flush, .tick, .takeCache 1, .ack 0,
+      .tick, .tick]).s.log = [.fwd 0 0 .h2d true, .done 0 0 .h2d true, .flushStart 1, .cacheReq 0] ∧
+    (reachCp 1 4 1 4 4 [.req .h2d, .tick, .takeDma 1, .rsp 0, .tick, .req .flush, .tick, .takeCache 1, .ack 0,
+      .tick, .tick]).s.cacheIn = [0] ∧
+    (reachCp 1 4 1 4 4 [.req .h2d, .tick, .takeDma 1, .rsp 0, .tick, .req .flush, .tick, .takeCache 1, .ack 0,
+      .tick, .tick, .takeDrv 1, .tick]).s.log =
+      [.fwd 0 0 .h2d true, .done 0 0 .h2d true, .flushStart 1, .cacheReq 0, .ack, .flushDone 1 true] ∧
+    (reachCp 0 4 1 4 4 [.req .flush, .req .flush, .tick, .tick]).s.log = [.flushStart 0, .flushDone 0 true] ∧
+    (reachCp 0 4 1 4 4 [.req .flush, .req .flush, .tick, .tick]).s.drvIn = [⟨1, .flush⟩] := by decide +kernel
+
+/-- **(d) Nothing is lost.** In a quiet state (all buffers empty, nothing at the DMA side or the
+    caches) without fault, the answers the driver has taken are a permutation of the requests the
+    driver port accepted: every request — flush, H2D, D2H — was answered exactly once, whatever
+    back-pressure occurred on the way (no hypothesis about dropped messages any more: see
+    `cp_nothing_dropped`). (A request refused by a full driver port stays with the driver:
+    `CpEnv.step e (.req k)` leaves the state unchanged and answers `full`.) -/
+theorem cp_quiet_all_answered (n cin cdrv cdma ccache : Nat) (ops : List CpOp) :
+    let e := reachCp n cin cdrv cdma ccache ops
+    e.quiet → e.s.fault = none → e.drained.Perm e.sent := by
+  intro e hq hf
+  exact (reach_all n cin cdrv cdma ccache ops).1.quiet_perm hq hf (cp_nothing_dropped n cin cdrv cdma ccache ops)
+
+example : (reachCp 3 8 8 8 8 demoCpOps).quiet ∧ (reachCp 3 8 8 8 8 demoCpOps).s.fault = none := by
+  unfold CpEnv.quiet; decide +kernel
+
+/-- the full statement for the code BEFORE the repair (`reachCpOld`: `Send` errors ignored) -/
+def cp_nothing_dropped_before_fix : Prop :=
+  ∀ (n cin cdrv cdma ccache : Nat) (ops : List CpOp), ∀ ev ∈ (reachCpOld n cin cdrv cdma ccache ops).s.log, ev.dropped = false
+
+/-- **Refuted before the repair:** `processMemCopyReq` ignored the error of `ToDMA.Send`: with a
+    one-entry ToDMA buffer that the DMA side does not empty, the second copy request was taken from the
+    driver port and its clone dropped (the same happened at 4096 entries with 4097 requests —
+    reproduced on the real component before the repair, oracle `C11.cp.dropped-under-backpressure`). -/
+theorem cp_nothing_dropped_before_fix_refuted : ¬ cp_nothing_dropped_before_fix := by
   intro h
   have := h 0 4 4 1 4 [.req .h2d, .req .h2d, .tick] (.fwd 1 1 .h2d false) (by decide +kernel)
   simp [CpEv.dropped] at this
-
-/-- **(d) partial: nothing is dropped while the outgoing buffers have room.** If every tick of the
-    run starts with at least 6 free entries in ToDriver and 2 in ToDMA (what one tick can send), no
-    `Send` ever fails — whatever the order of requests, acknowledgements and answers, and however
-    full the INCOMING buffers are. -/
-theorem cp_nothing_dropped_partial (n cin cdrv cdma ccache : Nat) (ops : List CpOp)
-    (hroom : (CpEnv.init n cin cdrv cdma ccache).roomy ops) :
-    ∀ ev ∈ (reachCp n cin cdrv cdma ccache ops).s.log, ev.dropped = false := by
-  exact run_nodrop ops _ (by intro ev hev; cases hev) hroom
-
-example : (CpEnv.init 3 8 8 8 8).roomy demoCpOps := by
-  unfold demoCpOps
-  repeat (first | exact trivial | decide +kernel | refine ⟨?_, ?_⟩)
 
 /-- **No panic.** When ToCaches can hold one flush request per cache (`n ≤ ccache`), the CP never
     faults, for every event order: `flushCache`'s `panic(err)`, the `panic("never")` of
